@@ -1608,7 +1608,7 @@ package crypto
 
 // the two sequences of pairing operands, per distinct message: element 0 is (signature, -g2), element g+1 is
 // (hash-to-curve of message g, sum of the keys of message g); the keys of message g start at index isum(pks_per_hash, g)
-//@ pred pdmG1(sig, hashes) = seqof(k, ite(k == 0, g1pt(sig), h2cAt(&hashes[128*(k-1)])))
+//@ pred pdmG1(sig, hashes) = seqof(k, ite(k == 0, g1ptAt(sig), h2cAt(&hashes[128*(k-1)])))
 //@ pred pdmG2(pks_per_hash, pks) = seqof(k, ite(k == 0, negG2(), e2sum(&pks[isum(pks_per_hash, k-1)], pks_per_hash[k-1])))
 
 //@ cfunc bls_verifyPerDistinctMessage props C02 C09
@@ -1618,7 +1618,7 @@ package crypto
 //@ requires [key-counts] forall(k, 0, nb_hashes, 1 <= pks_per_hash[k] && pks_per_hash[k] <= 2147483647) && isum(pks_per_hash, nb_hashes) <= 2147483647 && valid(pks, isum(pks_per_hash, nb_hashes))
 //@ assigns nothing
 //@ ensures [never-undefined] result == VALID || result == INVALID
-//@ ensures [accepts-exactly] (result == VALID) == old(g1canon(sig) && inG1(g1pt(sig)) && fp12IsOne(mpairs(pdmG1(sig, hashes), pdmG2(pks_per_hash, pks), nb_hashes + 1)))
+//@ ensures [accepts-exactly] (result == VALID) == old(g1canonAt(sig) && inG1(g1ptAt(sig)) && fp12IsOne(mpairs(pdmG1(sig, hashes), pdmG2(pks_per_hash, pks), nb_hashes + 1)))
 //@ loop 1 invariant [range] 1 <= i && i <= nb_hashes + 1 && offset == 128*(i-1)
 //@ loop 1 invariant [hashed-so-far] forall(k, 1, i, ptAt(elemsG1, k) == at(old(pdmG1(sig, hashes)), k))
 //@ loop 1 assigns elemsG1[1:nb_hashes+1], i, offset
@@ -1629,7 +1629,7 @@ package crypto
 
 // per distinct key: element 0 is (signature, -g2), element g+1 is (sum of the hash-to-curve images of the messages of key g, key g);
 // the messages of key g are the hashes_per_pk[g] consecutive 128-byte strings starting at string number isum(hashes_per_pk, g)
-//@ pred pdkG1(sig, hashes, hashes_per_pk) = seqof(k, ite(k == 0, g1pt(sig), e1sum(h2cSeqAt(&hashes[128*isum(hashes_per_pk, k-1)]), hashes_per_pk[k-1])))
+//@ pred pdkG1(sig, hashes, hashes_per_pk) = seqof(k, ite(k == 0, g1ptAt(sig), e1sum(h2cSeqAt(&hashes[128*isum(hashes_per_pk, k-1)]), hashes_per_pk[k-1])))
 //@ pred pdkG2(pks) = seqof(k, ite(k == 0, negG2(), ptAt(pks, k-1)))
 
 //@ cfunc bls_verifyPerDistinctKey props C02 C09
@@ -1639,7 +1639,7 @@ package crypto
 //@ requires [every-hash-has-128-bytes] forall(k, 0, isum(hashes_per_pk, nb_pks), len_hashes[k] == 128)
 //@ assigns nothing
 //@ ensures [never-undefined] result == VALID || result == INVALID
-//@ ensures [accepts-exactly] (result == VALID) == old(g1canon(sig) && inG1(g1pt(sig)) && fp12IsOne(mpairs(pdkG1(sig, hashes, hashes_per_pk), pdkG2(pks), nb_pks + 1)))
+//@ ensures [accepts-exactly] (result == VALID) == old(g1canonAt(sig) && inG1(g1ptAt(sig)) && fp12IsOne(mpairs(pdkG1(sig, hashes, hashes_per_pk), pdkG2(pks), nb_pks + 1)))
 //@ loop 1 invariant [range] 1 <= i && i <= nb_pks + 1
 //@ loop 1 invariant [keys-copied-so-far] forall(k, 1, i, ptAt(elemsG2, k) == at(old(pdkG2(pks)), k))
 //@ loop 1 assigns elemsG2[1:nb_pks+1], i
@@ -1647,8 +1647,38 @@ package crypto
 //@ loop 2 invariant [maximum-so-far] forall(k, 0, i, hashes_per_pk[k] <= tmp_hashes_size)
 //@ loop 3 invariant [range] 1 <= i && i <= nb_pks + 1 && index_offset == isum(hashes_per_pk, i-1) && data_offset == 128*index_offset
 //@ loop 3 invariant [next-group-ends-within-the-hashes] i <= nb_pks ==> isum(hashes_per_pk, i) <= isum(hashes_per_pk, nb_pks)
-//@ loop 3 invariant [summed-so-far] forall(k, 1, i, ptAt(elemsG1, k) == at(old(pdkG1(sig, hashes, hashes_per_pk)), k))
+//@ loop 3 invariant [summed-so-far long] forall(k, 1, i, ptAt(elemsG1, k) == at(old(pdkG1(sig, hashes, hashes_per_pk)), k))
 //@ loop 3 assigns elemsG1[1:nb_pks+1], tmp_hashes[0:tmp_hashes_size], i, data_offset, index_offset
 //@ loop 4 invariant [range] 0 <= j && j <= hashes_per_pk[i-1] && index_offset == isum(hashes_per_pk, i-1) + j && data_offset == 128*index_offset
-//@ loop 4 invariant [hashed-so-far] forall(m, 0, j, ptAt(tmp_hashes, m) == at(h2cSeqAt(&hashes[128*isum(hashes_per_pk, i-1)]), m))
+//@ loop 4 invariant [hashed-so-far long] forall(m, 0, j, ptAt(tmp_hashes, m) == at(h2cSeqAt(&hashes[128*isum(hashes_per_pk, i-1)]), m))
 //@ loop 4 assigns tmp_hashes[0:tmp_hashes_size], j, data_offset, index_offset
+
+// ---- VerifyBLSSignatureManyMessages (C02): input validation, error classes, and the preconditions of the two C functions
+//@ pred mmLists(pks, s, messages, kmac) = len(s) == 48 && len(pks) != 0 && len(pks) == len(messages) && len(kmac) == len(messages)
+//@ func VerifyBLSSignatureManyMessages mode int props C02 C09
+//@ dead-return 1   // the C functions only return VALID or INVALID
+//@ requires noTypedNilKeys(pks) && len(pks) <= 16777215
+//@ assigns everything
+//@ ensures [wrong-length-signature] len(s) != 48 ==> !result0 && result1 == nil
+//@ ensures [empty] len(s) == 48 && len(pks) == 0 ==> !result0 && iserr(result1, errBLSAggregateEmptyList)
+//@ ensures [length-mismatch] len(s) == 48 && len(pks) != 0 && (len(pks) != len(messages) || len(kmac) != len(messages)) ==> !result0 && iserr(result1, *invalidInputsError)
+//@ ensures [true-only-without-error] result0 ==> result1 == nil
+//@ ensures [bad-hasher] mmLists(pks, s, messages, kmac) && exists(k, 0, len(kmac), kmac[k] == nil || kmac[k].osize != 128) ==> !result0 && result1 != nil
+//@ ensures [not-a-bls-key] mmLists(pks, s, messages, kmac) && forall(k, 0, len(kmac), hasherOK(kmac[k])) && exists(k, 0, len(pks), !typeis(pks[k], *pubKeyBLSBLS12381)) && forall(k, 0, len(pks), typeis(pks[k], *pubKeyBLSBLS12381) ==> !unbox(pks[k], *pubKeyBLSBLS12381).isIdentity) ==> !result0 && iserr(result1, errNotBLSKey)
+//@ ensures [identity-key] mmLists(pks, s, messages, kmac) && forall(k, 0, len(kmac), hasherOK(kmac[k])) && forall(k, 0, len(pks), typeis(pks[k], *pubKeyBLSBLS12381)) && exists(k, 0, len(pks), unbox(pks[k], *pubKeyBLSBLS12381).isIdentity) ==> !result0 && result1 == nil
+//@ ensures [no-error-on-valid-input] mmLists(pks, s, messages, kmac) && forall(k, 0, len(kmac), hasherOK(kmac[k])) && forall(k, 0, len(pks), typeis(pks[k], *pubKeyBLSBLS12381)) ==> result1 == nil
+//@ loop 1 invariant [hashers-so-far] forall(k, 0, i, old(hasherOK(kmac[k]))) && forall(k, 0, len(kmac), kmac[k] != nil ==> unchanged(kmac[k].osize))
+//@ loop 2 invariant [hashers] forall(k, 0, len(kmac), old(hasherOK(kmac[k])))
+//@ loop 2 invariant [keys-so-far] forall(k, 0, i, typeis(pks[k], *pubKeyBLSBLS12381) && !old(unbox(pks[k], *pubKeyBLSBLS12381).isIdentity))
+//@ loop 1 invariant [hashes-so-far] len(hashes) == i && forall(k, 0, i, len(hashes[k]) == 128) && len(kmac) == len(pks) && len(messages) == len(pks) && len(s) == 48
+//@ loop 2 invariant [hashes] len(hashes) == len(pks) && forall(k, 0, len(pks), len(hashes[k]) == 128) && len(s) == 48 && 0 <= i && i <= len(pks)
+//@ loop 2 invariant [maps] mapPerHash != nil && mapPerPk != nil && len(mapPerHash) <= i && len(mapPerPk) <= i && (i >= 1 ==> len(mapPerHash) >= 1 && len(mapPerPk) >= 1)
+//@ loop 2 invariant [per-hash] forallkey(mapPerHash, h, len(h) == 128 && 1 <= len(mapPerHash[h])) && vlensum(mapPerHash) == i
+//@ loop 2 invariant [per-key] forallkey(mapPerPk, p, 1 <= len(mapPerPk[p]) && fresh(mapPerPk[p]) && forall(j, 0, len(mapPerPk[p]), len(mapPerPk[p][j]) == 128)) && vlensum(mapPerPk) == i
+//@ loop 3 invariant [flat-per-hash] len(lenHashes) == nvisited() && len(pkPerHash) == nvisited() && len(flatDistinctHashes) == 128*nvisited() && len(allPks) == vissum() && isum(pkPerHash, nvisited()) == vissum() && nvisited() <= len(mapPerHash)
+//@ loop 3 invariant [hash-lengths] forall(k, 0, nvisited(), lenHashes[k] == 128)
+//@ loop 3 invariant [counts-per-hash] forall(k, 0, nvisited(), 1 <= pkPerHash[k] && pkPerHash[k] <= 16777215)
+//@ loop 4 invariant [flat-per-key] len(distinctPks) == nvisited() && len(hashPerPk) == nvisited() && len(lenHashes) == vissum() && len(flatHashes) == 128*vissum() && isum(hashPerPk, nvisited()) == vissum() && nvisited() <= len(mapPerPk)
+//@ loop 4 invariant [counts-per-key] forall(k, 0, nvisited(), 1 <= hashPerPk[k] && hashPerPk[k] <= 16777215) && forall(k, 0, vissum(), lenHashes[k] == 128)
+//@ loop 5 invariant [inner] len(lenHashes) == vissum() - len(hashesVal) + rangeindex + 1 && len(flatHashes) == 128*len(lenHashes) && forall(k, 0, len(lenHashes), lenHashes[k] == 128)
+//@ loop 5 invariant [outer-kept] len(distinctPks) == nvisited() && len(hashPerPk) == nvisited() && isum(hashPerPk, nvisited()) == vissum() && forall(k, 0, nvisited(), 1 <= hashPerPk[k] && hashPerPk[k] <= 16777215)
